@@ -43,7 +43,10 @@ func ShowFields(ctx context.Context, proc *query.Processor, filename string) err
 		if !ok {
 			return query.NewFileNotExistError(filePath)
 		}
-		if _, isSubquery := table.Object.(parser.Subquery); isSubquery {
+		switch table.Object.(type) {
+		case parser.Identifier, parser.Url, parser.TableFunction, parser.Stdin, parser.FormatSpecifiedFunction:
+		default:
+			// a sub-query, a join, ...
 			return query.NewFileNotExistError(filePath)
 		}
 		filePath = table.Object
